@@ -15,7 +15,7 @@ META = {
             "(hence not depend on the form) and that of a hand-assembled reference circuit of the documented construction with k = ceil(pi/4 sqrt(N/M)) iterations, (ii) rank every solution above every non-solution, (iii) give the solutions total probability > 1/2, "
             "and (iv) decode_output of each solution string is the solution in the argument type. A form whose expressions do not denote S is "
             "skipped (C01's matter). Non-trivial = |S| >= 2 or a non-integer argument type; distinct = distinct (n, S, form).",
-    "bound": {"quick": "n=2,3 all sets (40), n=4 |S|<=2 (136); 14 forms (equalities, minterms, tables, tuples, lists, modular arithmetic; value search with int, falsy, bool and Qint-instance targets) x profiles", "thorough": "n=4 all 2516 sets, n=5 |S|<=2 (528 sets)"},
+    "bound": {"quick": "n=2,3 all sets (40), n=4 |S|<=2 (136); 16 forms (equalities, minterms, tables, tuples, lists, modular arithmetic; value search with int, falsy, bool and Qint-instance targets) x profiles", "thorough": "n=4 all 2516 sets, n=5 |S|<=2 (528 sets)"},
     "assumptions": ["svsim.sparse_run (cross-checked against the dense simulator) is the meaning of the circuit",
                     "the ideal oracle (X-conjugated MCX per solution) is the reference black box; n_matching=|S| and the default iteration count are used"],
     "explanation": "states = Grover instances built by the real constructor on a freshly compiled predicate; transitions = basis outcomes compared.",
@@ -45,7 +45,7 @@ def shards(tier):
     return out
 
 
-FORMS = ["eq", "dnf", "table", "tuple", "qlist", "value", "value_tuple", "value_zero", "pred_false", "arith", "arith_rev", "tuple_ne", "value_qint1", "value_qint2"]
+FORMS = ["eq", "dnf", "table", "tuple", "qlist", "value", "value_tuple", "value_zero", "pred_false", "arith", "arith_rev", "tuple_ne", "nested", "loop_ge", "value_qint1", "value_qint2"]
 
 
 def cases(shard):
@@ -97,6 +97,23 @@ def source(n, S, form):
         t = "Tuple[%s]" % ", ".join(["bool"] * n)
         lit = lambda v: "(" + ", ".join("True" if (v >> i) & 1 else "False" for i in range(n)) + ")"  # noqa: E731
         return "def tfun(x: %s) -> bool:\n    return %s\n" % (t, " or ".join("not (x != %s)" % lit(v) for v in S)), None, "tuple"
+    if form == "loop_ge":
+        # S = {2^k - 1}: the low k bits set, written as an unrolled loop whose branch is chosen by "i >= k" on the loop index
+        k = S[0].bit_length() if len(S) == 1 else 0
+        if len(S) != 1 or S[0] != (1 << k) - 1 or not 1 <= k < n:
+            return None, None, "n/a"
+        return ("def tfun(x: Qint[%d]) -> bool:\n    r = True\n    for i in range(%d):\n        if i >= %d:\n            r = r and not x[i]\n"
+                "        else:\n            r = r and x[i]\n    return r\n" % (n, n, k)), None, "int"
+    if form == "nested":
+        # a search register with a nested tuple type of mixed member widths (only for 4 and 5 bits)
+        if n == 4:
+            t, names = "Tuple[Tuple[bool, Qint[2]], bool]", ["x[0][0]", "x[0][1][0]", "x[0][1][1]", "x[1]"]
+        elif n == 5:
+            t, names = "Tuple[Tuple[bool, Qint[2]], Qint[2]]", ["x[0][0]", "x[0][1][0]", "x[0][1][1]", "x[1][0]", "x[1][1]"]
+        else:
+            t, names = "Tuple[%s]" % ", ".join(["bool"] * n), ["x[%d]" % i for i in range(n)]
+        mt = lambda v: "(" + " and ".join(names[i] if (v >> i) & 1 else "not " + names[i] for i in range(n)) + ")"  # noqa: E731
+        return "def tfun(x: %s) -> bool:\n    return %s\n" % (t, " or ".join(mt(v) for v in S)), None, ("nested" if n in (4, 5) else "tuple")
     if form == "arith_rev":
         # the constant on the left of the subtraction (narrower than the register for small s)
         return "def tfun(x: Qint[%d]) -> bool:\n    return %s\n" % (n, " or ".join("(%d - x) == 0" % s for s in S)), None, "int"
@@ -153,6 +170,8 @@ def run_case(case):
     n, S, form = case["n"], tuple(case["S"]), case["form"]
     N = 1 << n
     src, element, akind = source(n, S, form)
+    if src is None:
+        return {"status": "skipped", "rows": 0, "nontrivial": False, "outcome": "form-not-applicable-to-this-set"}
     try:
         qf = H.compile_src(src, case["profile"], True)
     except Exception as e:
@@ -194,7 +213,7 @@ def run_case(case):
                 "detail": {"why": "Grover construction or simulation raised", "exc": "%s: %s" % (H.exc_name(e), str(e)[:100]), "src": src},
                 "digest": "raised:" + H.exc_name(e)}
     # reference: same construction with the ideal oracle of S (a plain predicate signature)
-    sig = "def tfun(x: Qint[%d]) -> bool:\n    return x[0]\n" % n if akind == "int" else \
+    sig = "def tfun(x: Qint[%d]) -> bool:\n    return x[0]\n" % n if akind in ("int", "nested") else \
           "def tfun(x: Tuple[%s]) -> bool:\n    return x[0]\n" % ", ".join(["bool"] * n)
     ref = ideal.ideal_qlassf(sig, [(1,) if r in S else (0,) for r in range(N)])
     ralg = Grover(ref, n_matching=len(S))
@@ -227,7 +246,15 @@ def run_case(case):
             except Exception as e:
                 bad.append({"why": "decode_output raised", "exc": H.exc_name(e)})
                 break
-            if akind == "int":
+            if akind == "nested":
+                b = [(s >> i) & 1 for i in range(n)]
+                try:
+                    ok = (isinstance(v, tuple) and len(v) == 2 and isinstance(v[0], tuple) and len(v[0]) == 2 and v[0][0] is bool(b[0])
+                          and int(v[0][1]) == b[1] + 2 * b[2]
+                          and ((v[1] is bool(b[3])) if n == 4 else (not isinstance(v[1], bool) and int(v[1]) == b[3] + 2 * b[4])))
+                except Exception:
+                    ok = False
+            elif akind == "int":
                 ok = isinstance(v, int) and not isinstance(v, bool) and int(v) == s
             else:
                 ok = isinstance(v, tuple) and list(v) == [bool((s >> i) & 1) for i in range(n)] and all(isinstance(b, bool) for b in v)
